@@ -23,13 +23,22 @@ def unhex(s):
 
 
 class Env:
-    def __init__(self):
+    def __init__(self, lo=1e-300, hi=1e300):
         self.y = {}
         self.a = {}
+        self.lo, self.hi = lo, hi
+        self.out_of_range = False     # some intermediate term left the normal range of the float format under test
 
 
 def ev(t, env):
-    """returns (value, magnitude)"""
+    """returns (value, magnitude); notes in env when an intermediate value leaves the representable range"""
+    v, m = ev0(t, env)
+    if isinstance(v, float) and (abs(v) > env.hi or (v != 0 and abs(v) < env.lo) or v != v):
+        env.out_of_range = True
+    return v, m
+
+
+def ev0(t, env):
     k = t["t"]
     if k == "c":
         v = t["m"] * 2.0 ** (-t["e"])
@@ -41,7 +50,10 @@ def ev(t, env):
         v = env.y[t["n"]][t["i"] - 1]
         return v, abs(v)
     if k == "a":
-        return env.a[t["n"]][t["i"] - 1]
+        v, m, bad = env.a[t["n"]][t["i"] - 1]
+        if bad:
+            env.out_of_range = True
+        return v, m
     if k == "add":
         a, ma = ev(t["a"], env)
         b, mb = ev(t["b"], env)
@@ -102,7 +114,8 @@ def ev(t, env):
 def judge(stdout_lines, events_by_key, f32=False):
     """events_by_key: (case, i) -> event dict. Returns (mismatches, stats)."""
     eps = 2.0 ** -23 if f32 else 2.0 ** -52
-    env = Env()
+    lo, hi = (1e-37, 1e38) if f32 else (1e-300, 1e300)
+    env = Env(lo, hi)
     cur = None
     cur_case = None
     bad = {}
@@ -113,7 +126,7 @@ def judge(stdout_lines, events_by_key, f32=False):
             cur = (int(parts[1]), int(parts[2]))
             if cur[0] != cur_case:
                 cur_case = cur[0]
-                env = Env()
+                env = Env(lo, hi)
             continue
         if ln.startswith('<<"BIND", "'):
             d = json.loads(json.loads(ln[len('<<"BIND", '):-2]))
@@ -122,7 +135,12 @@ def judge(stdout_lines, events_by_key, f32=False):
             continue
         if ln.startswith('<<"DEF", "'):
             d = json.loads(json.loads(ln[len('<<"DEF", '):-2]))
-            env.a[d["n"]] = [ev(t, env) for t in d["v"]]
+            vals = []
+            for t in d["v"]:
+                env.out_of_range = False
+                v, m = ev(t, env)
+                vals.append((v, m, env.out_of_range))
+            env.a[d["n"]] = vals
             continue
         if ln.startswith('<<"CHK", "'):
             d = json.loads(json.loads(ln[len('<<"CHK", '):-2]))
@@ -131,13 +149,13 @@ def judge(stdout_lines, events_by_key, f32=False):
                 continue
             for h, t in zip(d["hx"], d["v"]):
                 o = unhex(h)
+                env.out_of_range = False
                 e, m = ev(t, env)
                 stats["real_checked"] += 1
                 if math.isnan(e) or math.isinf(m) or math.isinf(e):
                     stats["real_unevaluable"] += 1     # outside the function's domain: not judged
                     continue
-                lo, hi = (1e-37, 1e38) if f32 else (1e-300, 1e300)
-                if (e != 0 and abs(e) < lo) or abs(e) > hi or m > hi:
+                if env.out_of_range or (e != 0 and abs(e) < lo) or abs(e) > hi or m > hi:
                     stats["real_unevaluable"] += 1     # a term under- or overflows the float format: "rounding
                     continue                           # of the terms involved" says nothing here - not judged
                 tol = TOL_ULPS * eps * max(m, abs(e), 1e-300)
